@@ -1,0 +1,15 @@
+//go:build verif
+
+package bloomfilter
+
+import "github.com/openGemini/openGemini/lib/util/lifted/influx/influxql"
+
+// Thin wrapper for the C20 verification harness (build tag verif). No behaviour.
+
+// VerifPhraseHashes returns, for every MATCHPHRASE phrase of expr on a column of splitMap, the hashes the filter readers
+// look the phrase up by (FilterReader.getAllHashes, the code VerticalFilterReader uses and LineFilterReader repeats).
+func VerifPhraseHashes(expr influxql.Expr, version uint32, splitMap map[string][]byte) map[string][]uint64 {
+	s := &FilterReader{version: version, splitMap: splitMap, missSplitIndex: make(map[string]uint8), hashes: make(map[string][]uint64)}
+	s.getAllHashes(expr)
+	return s.hashes
+}
